@@ -54,6 +54,7 @@ PROPS = {
                      "one evaluation at a time per alert (the cron job of an alert does not overlap with itself)"],
     ),
     "C01": dict(
+        disabled="kernel theorems (TLV/dictionary/seek codecs) under construction in this round; the end-to-end suite e2e_c01 already runs",
         suites=[("e2e_c01", 120, 3000)],
         decided_by_proof="(kernel theorems for the TLV/dictionary/seek codecs are being added; see Props/C01.lean)",
         partial="end-to-end round trip (flatten, type consolidation, block/segment layout, zstd, file offsets) is decided by the differential against the layout-free specification, not by proof",
@@ -74,6 +75,7 @@ PROPS = {
         partial="count/sum/min/max/avg by group: end-to-end differential against the specification; dc and percentiles (HLL / t-digest sketches) are not modelled",
     ),
     "C05": dict(
+        disabled="kernel theorems (block scheduler, sort comparator) under construction in this round; the end-to-end suite e2e_c05 already runs",
         suites=[("e2e_c05", 150, 4000)],
         decided_by_proof="(scheduler/comparator kernel theorems are being added; see Props/C05.lean)",
         partial="newest-first order, limits and paging: end-to-end differential against the specification",
